@@ -429,6 +429,27 @@ def _value_candidates(prog, e, fn_node, depth=0):
     if isinstance(e, ast.IfExp):
         return _value_candidates(prog, e.body, fn_node, depth + 1) + _value_candidates(prog, e.orelse, fn_node, depth + 1)
     out = [e]
+    inner = [x for x in ast.walk(e) if isinstance(x, ast.IfExp)]
+    if inner and depth < 3 and isinstance(e, ast.Call):
+        # a conditional nested in the expression (tuple(map(f, A if c else B))): one variant per arm of the first one
+        from sa.model import _strip_parents
+        first = inner[0]
+        for arm in ("body", "orelse"):
+            class Pick(ast.NodeTransformer):
+                done = False
+
+                def visit_IfExp(self_, n):
+                    if not self_.done and ast.dump(n) == ast.dump(first):
+                        self_.done = True
+                        return getattr(n, arm)
+                    return self_.generic_visit(n)
+            v = Pick().visit(_strip_parents(e))
+            ast.fix_missing_locations(v)
+            for x in ast.walk(v):
+                for ch in ast.iter_child_nodes(x):
+                    ch._parent = x
+            v._parent = getattr(e, "_parent", None)
+            out += _value_candidates(prog, v, fn_node, depth + 1)
     if isinstance(e, ast.Name) and fn_node is not None:
         for st in ast.walk(fn_node):
             if isinstance(st, ast.Assign) and any(isinstance(t, ast.Name) and t.id == e.id for t in st.targets):
